@@ -122,7 +122,7 @@ theorem refines_step (r : Rec ρ) (op : Op ρ) (hinv : Inv r) (hc : op.Canon) :
     rfl
   | setOutMode m =>
     cases m with
-    | invalid => exact ⟨rfl, rfl, hinv⟩
+    | invalid => refine ⟨?_, rfl, hinv⟩; (simp [step, specStep, abs, splitFlds, setModeEnv]; rfl)
     | default => refine ⟨?_, rfl, hinv⟩; (simp [step, specStep, abs, splitFlds, setModeEnv]; rfl)
     | csv sep => refine ⟨?_, rfl, hinv⟩; (simp [step, specStep, abs, splitFlds, setModeEnv]; rfl)
 
